@@ -3,7 +3,7 @@
 # Writes seeded/RESULTS.txt.  /repo itself is not touched; evidence/replays go to a scratch directory.
 HERE="$(cd "$(dirname "$0")/.." && pwd)"; WT=/tmp/wt/seedrun; OUT="$HERE/seeded/RESULTS.txt"
 git -C /repo worktree remove --force "$WT" 2>/dev/null; git -C /repo worktree add -q --detach "$WT" HEAD || exit 2
-export VERIF_REPO="$WT" VERIF_EVIDENCE_DIR=/tmp/seed-evidence VERIF_REPLAY_DIR=/tmp/seed-replays
+export VERIF_MAX_REPLAYS=25 VERIF_REPO="$WT" VERIF_EVIDENCE_DIR=/tmp/seed-evidence VERIF_REPLAY_DIR=/tmp/seed-replays
 : > "$OUT.new"
 for d in "$HERE"/seeded/C*-[mn][0-9]*; do
   id=$(basename "$d"); prop=$(echo "$id" | cut -d- -f1)
